@@ -109,6 +109,7 @@ def run(ctx):
     # ---- the oracle: neutral statements, four entry points side by side
     import c19
     g = gens.G(rnd)
+    g.accessors = True
     d = c19.D(rnd)
     stmts = []
     for i in range(ctx.n(500, 6000)):
